@@ -134,7 +134,10 @@ func MetaSweep() (bodies [][]byte, evs [][]refsmf.Event) {
 		if typ == 0x2F {
 			continue
 		}
-		for _, pl := range [][]byte{nil, {0x01}, {0x07, 0xA1, 0x20}, {1, 2, 3, 4, 5}} {
+		for _, pl := range [][]byte{nil, {0x01}, {0x07, 0xA1, 0x20}, {1, 2, 3, 4, 5},
+			// contents that are odd for the meta type they may sit in (a tempo of
+			// zero, a time signature of zeros, a key signature beyond seven sharps ...)
+			{0, 0, 0}, {0xFF, 0xFF, 0xFF}, {0, 0}, {0x7F, 0x7F}, {0x09, 0x01}, {0xF9, 0x01}, {0, 0, 0, 0}, {0xFF, 0xFF, 0xFF, 0xFF}, {0, 0, 0, 0, 0}, {0}} {
 			body := []byte{0x00, 0x90, 0x3C, 0x40, 0x05, 0xFF, byte(typ), byte(len(pl))}
 			body = append(body, pl...)
 			body = append(body, 0x00, 0x3E, 0x40) // data under running status after a meta event is NOT legal: use explicit status
@@ -144,6 +147,31 @@ func MetaSweep() (bodies [][]byte, evs [][]refsmf.Event) {
 			bodies = append(bodies, body)
 			evs = append(evs, ev)
 		}
+	}
+	return
+}
+
+// ManyEvents returns tracks of n channel messages with individual data bytes
+// (explicit status and running status alternate in blocks), n beyond any
+// plausible block size of a decoder.
+func ManyEvents() (bodies [][]byte, evs [][]refsmf.Event) {
+	for _, n := range []int{5000, 11000, 23000, 70000} {
+		var body []byte
+		var ev []refsmf.Event
+		for i := 0; i < n; i++ {
+			st := byte(0x90 + (i/1000)%3)
+			k, v := byte(i%128), byte((i/128)%128)
+			body = append(body, byte(i%2))
+			if i%1000 == 0 || i%7 == 3 {
+				body = append(body, st)
+			}
+			body = append(body, k, v)
+			ev = append(ev, refsmf.Event{Delta: uint32(i % 2), Msg: []byte{st, k, v}})
+		}
+		body = append(body, 0x00, 0xFF, 0x2F, 0x00)
+		ev = append(ev, refsmf.Event{Delta: 0, Msg: refsmf.EOT})
+		bodies = append(bodies, body)
+		evs = append(evs, ev)
 	}
 	return
 }
